@@ -144,8 +144,10 @@ def evidence(ctx, mod, violations):
     )
     ev = dict(property_id=ctx.prop, tier=ctx.tier, seed=ctx.seed, level="proof", coverage=cov,
               assumptions=list(getattr(mod, "ASSUMPTIONS", [])), wall_s=round(time.time() - ctx.t0, 2), violations=violations)
-    (VERIF / "evidence").mkdir(exist_ok=True)
-    (VERIF / "evidence" / f"{ctx.prop}.json").write_text(json.dumps(jsonable(ev), indent=1))
+    # evidence describes /repo itself: a run against another copy (mutation testing) must not overwrite it
+    edir = VERIF / "evidence" if str(lib.REPO) == "/repo" else VERIF / ".work" / "evidence-other-repo"
+    edir.mkdir(parents=True, exist_ok=True)
+    (edir / f"{ctx.prop}.json").write_text(json.dumps(jsonable(ev), indent=1))
 
 
 def main():
